@@ -156,9 +156,19 @@ pub fn one_history(rng: &mut StdRng, id: String, out: &mut Vec<Value>, persist: 
     let n = rng.gen_range(2..=5);
     let case = rand_adf(rng, n, id.clone());
     let text = case.text();
-    let backend = [Backend::Native, Backend::Hybrid, Backend::HybridNoPre][rng.gen_range(0..3)];
+    // a third of the histories stay within the call kinds whose store-level transcription exists (grounded, complete, stable,
+    // extra formulas) on a natively compiled object: the model then follows them handle by handle (Trace_Bdd, drift only)
+    let followable = !persist && rng.gen_range(0..3) == 0;
+    let backend = if followable { Backend::Native } else { [Backend::Native, Backend::Hybrid, Backend::HybridNoPre][rng.gen_range(0..3)] };
     let len = rng.gen_range(2..=10);
-    let calls: Vec<HCall> = (0..len).map(|_| rand_call(rng)).collect();
+    let calls: Vec<HCall> = (0..len)
+        .map(|_| loop {
+            let c = rand_call(rng);
+            if !followable || ["grounded", "complete", "stable", "bddop"].contains(&c.c) {
+                break c;
+            }
+        })
+        .collect();
     let persist_at = if persist { rng.gen_range(0..=len) } else { usize::MAX };
     let persist_how = if rng.gen_bool(0.5) { "serde" } else { "rebuild" };
 
